@@ -878,11 +878,12 @@ def validate_spill(rng, n, res):
     import shutil
     import tempfile
 
-    need = ("Output__pack", "Output__unpack", "Output__clear_data_files", "Output_finalize")
+    need = ("Output__pack", "Output__unpack", "Output__clear_data_files", "Output_finalize", "TimeCachingAdapter__clear_cached_data_files",
+            "TimeCachingAdapter__unpack", "TimeCachingAdapter__finalize")
     if not all(common.TRANSLATION_STATUS.get(f, {}).get("translated") for f in need):
         return
-    stats = {"outputs": 0, "Output__pack": 0, "Output__unpack": 0, "Output__clear_data_files": 0, "Output_finalize": 0,
-             "spilled": 0, "masked_spilled": 0, "evicted_files": 0, "errors": {}, "mismatch": 0}
+    stats = {"outputs": 0, "adapters": 0, "spilled": 0, "masked_spilled": 0, "evicted_files": 0, "errors": {}, "mismatch": 0}
+    stats.update({f: 0 for f in need})
     reqs, reals = [], []
     units = fm.UNITS.Unit("m")
 
@@ -899,13 +900,19 @@ def validate_spill(rng, n, res):
     for _ in range(n):
         tmp = tempfile.mkdtemp(prefix="finam_verif_spill_")
         try:
-            out = fm.Output(name="o", info=fm.Info(time=EPOCH, grid=fm.NoGrid(), units="m"))
+            is_ad = rng.random() < 0.4
+            if is_ad:
+                out = rng.choice([fm.adapters.NextTime, fm.adapters.LinearTime, fm.adapters.AvgOverTime])()
+                out._input_info = fm.Info(time=EPOCH, grid=fm.NoGrid(), units="m")
+                stats["adapters"] += 1
+            else:
+                out = fm.Output(name="o", info=fm.Info(time=EPOCH, grid=fm.NoGrid(), units="m"))
             limit = rng.choice([None, -1, 0, 0, 16, 40, 64, 10_000])
             out.memory_limit, out.memory_location = limit, tmp
             tg = [object() for _ in range(rng.choice([1, 2]))]
             out._connected_inputs = {o: None for o in tg}
             tid = {id(o): j for j, o in enumerate(tg)}
-            stats["outputs"] += 1
+            stats["outputs"] += not is_ad
             nb, masked_ids = {}, []
 
             def fname_id(path):
@@ -965,7 +972,7 @@ def validate_spill(rng, n, res):
                         real = {"ok": key_of(out._unpack(w))}
                     except Exception as e:  # noqa
                         real = {"err": err_class(e)}
-                    reqs.append({"fn": "Output__unpack", "args": before})
+                    reqs.append({"fn": "TimeCachingAdapter__unpack" if is_ad else "Output__unpack", "args": before})
                     reals.append(real)
                     if "err" in real:
                         alive = False
@@ -975,8 +982,19 @@ def validate_spill(rng, n, res):
                     t_req = out.data[j][0] + dt.timedelta(minutes=rng.choice([0, 0, 20]))
                     if isinstance(out.data[0][1], str) and rng.random() < 0.05:
                         os.remove(out.data[0][1])
-                    before = [enc_data(), enc_ci(), int(out._total_mem), enc_fs(), us_of(t_req), tid[id(tgt)], [[a, b] for a, b in nb.items()]]
                     nfiles = len(os.listdir(tmp))
+                    if is_ad:
+                        before = [enc_data(), int(out._total_mem), enc_fs(), us_of(t_req), [[a, b] for a, b in nb.items()]]
+                        try:
+                            out._clear_cached_data(t_req)
+                            real = {"ok": [int(out._total_mem), enc_data(), fs_set(enc_fs())]}
+                            stats["evicted_files"] += nfiles - len(os.listdir(tmp))
+                        except Exception as e:  # noqa
+                            real, alive = {"err": err_class(e)}, False
+                        reqs.append({"fn": "TimeCachingAdapter__clear_cached_data_files", "args": before})
+                        reals.append(real)
+                        continue
+                    before = [enc_data(), enc_ci(), int(out._total_mem), enc_fs(), us_of(t_req), tid[id(tgt)], [[a, b] for a, b in nb.items()]]
                     try:
                         out._clear_data(t_req, tgt)
                         real = {"ok": [enc_ci(), int(out._total_mem), enc_data(), fs_set(enc_fs())]}
@@ -988,11 +1006,11 @@ def validate_spill(rng, n, res):
             if alive:
                 before = [enc_data(), enc_fs()]
                 try:
-                    out.finalize()
+                    (out._finalize if is_ad else out.finalize)()
                     real = {"ok": [enc_data(), fs_set(enc_fs())]}
                 except Exception as e:  # noqa
                     real = {"err": err_class(e)}
-                reqs.append({"fn": "Output_finalize", "args": before})
+                reqs.append({"fn": "TimeCachingAdapter__finalize" if is_ad else "Output_finalize", "args": before})
                 reals.append(real)
         finally:
             shutil.rmtree(tmp, ignore_errors=True)
@@ -1015,8 +1033,11 @@ def validate_spill(rng, n, res):
         elif rq["fn"] == "Output__pack":
             g = flat(lv["ok"], 4)
             agree = [g[0], g[1], g[2], sorted(map(tuple, g[3]))] == real["ok"]
-        elif rq["fn"] == "Output__unpack":
+        elif rq["fn"].endswith("__unpack"):
             agree = lv["ok"] == real["ok"]
+        elif rq["fn"] == "TimeCachingAdapter__clear_cached_data_files":
+            g = flat(lv["ok"], 3)
+            agree = [g[0], [list(p) for p in g[1]], sorted(map(tuple, g[2]))] == real["ok"]
         elif rq["fn"] == "Output__clear_data_files":
             g = flat(lv["ok"], 4)
             agree = [[list(p) for p in g[0]], g[1], [list(p) for p in g[2]], sorted(map(tuple, g[3]))] == real["ok"]
